@@ -253,6 +253,8 @@ class Repo:
 
         def visit(node, qual):
             for child in ast.iter_child_nodes(node):
+                if isinstance(child, (ast.expr_context, ast.operator, ast.boolop, ast.unaryop, ast.cmpop)):
+                    continue        # singletons shared by every tree of the process: a back-link on them would tie all trees together
                 child._parent = node
                 child._mod = mod
                 q = qual
